@@ -293,7 +293,7 @@ class Model:
             raise Invalid("negative-count", str(v))
         return v
 
-    def den(self, override=None, check_macro_bodies=True):
+    def den(self, override=None, check_macro_bodies=True, normalise=True):
         """-> normalised tree, or raises Invalid"""
         env = self.env(override)
         self.check_declarations(env)
@@ -308,6 +308,8 @@ class Model:
                     self.den_stmt(s[3], scope, env, pos)
                 continue
             items.append(self.den_stmt(s, {}, env, pos))
+        if not normalise:
+            return ("seq", tuple(items))
         return norm_top(items)
 
     def try_den(self, override=None):
